@@ -7,16 +7,22 @@
 # therefore contain an Announce after the links are up.  The hop limit is assumed >= the number of agents - 1.
 # "next hop is a current neighbour / path is a chain of actual links" is evaluated while no link was lost (stable
 # topology, as in the statement).
+# Reconnects: a peer that connects again after a link loss gets the other end's table replay; at quiescence it must hold
+# every route the other end holds and could give it (Resynced) - also when the seen cache still remembers the replayed
+# announcements.  Evaluated while that connect is the last topology / ageing event.
 import vf, _flood as F
 
-DEVS = ["DevNoPathPrepend"]
+DEVS = ["DevNoPathPrepend", "DevSeenBlocksResync"]
+WFILES = ["common/common_test.go.tmpl", "agent/flood_wiring_test.go"]
 
 
 def cfgs(ctx):
     l2, l3 = F.L(("a", "b")), F.L(("a", "b"), ("b", "c"))
     t3 = F.L(("a", "b"), ("b", "c"), ("a", "c"))
     out = [F.base("c12-stable3", F.A3, t3, initups=[l2, l3, t3], exits=[["a"], ["b"], ["a", "c"]]),
-           F.base("c12-join3", F.A3, l3, initups=[l2], exits=[["a"], ["c"]], announcers=["a", "c"], conn=1)]
+           F.base("c12-join3", F.A3, l3, initups=[l2], exits=[["a"], ["c"]], announcers=["a", "c"], conn=1),
+           # a link is lost and comes back (within the seen-cache lifetime): the table replay must restore the routes
+           F.base("c12-rejoin3", F.A3, t3, initups=[l3, t3], exits=[["a"], []], announcers=["a"], conn=1, disc=1)]
     if not ctx.quick():
         k4 = [("a", "b"), ("a", "c"), ("a", "d"), ("b", "c"), ("b", "d"), ("c", "d")]
         tops4 = [F.L(("a", "b"), ("b", "c"), ("c", "d")), F.L(("a", "b"), ("a", "c"), ("a", "d")),
@@ -32,6 +38,15 @@ def run(ctx):
     runs = F.model(ctx, cfgs(ctx))
     caught = F.sensitivity(ctx, DEVS)
     rep = F.replay(ctx, runs)
+    # the same on a real Agent: handlePeerDisconnect, then the peer's table replay
+    g = ctx.gotest("agent", WFILES, "^TestZZVFloodReconnectResync$", timeout=900)
+    rs = g.of("resync")
+    if not rs or not (rs[0]["learned"] and rs[0]["removed_on_disconnect"]):
+        raise vf.Infra("resync harness could not reach the state (route learned, removed on disconnect): %s" % rs)
+    if not rs[0]["restored"]:
+        ctx.finding("Flood:DevSeenBlocksResync:agent.handlePeerDisconnect",
+                    "a peer was lost and came back within the seen-cache lifetime: its table replay (origin's sequence) was dropped as "
+                    "already seen and the routes Agent.handlePeerDisconnect had removed were not restored", rs[0])
     ntr, nops = (25, 50) if ctx.quick() else (1200, 100)
     tr = F.traces(ctx, "TestZZVFloodTrace", {"ZZV_TRACES": ntr, "ZZV_OPS": nops}, "c12trace")
     F.report(ctx, "C12", rep, [tr])
